@@ -41,6 +41,12 @@ func main() {
 				fmt.Println(out)
 			}
 		}
+		if len(os.Args) > 2 && os.Args[2] == "C07" {
+			fmt.Println(runSortHarness(w).out)
+		}
+		if len(os.Args) > 2 && os.Args[2] == "C16" {
+			fmt.Println(runVersInv(w, envOr("GOVC_TIER", "quick")).out)
+		}
 		if len(os.Args) > 3 && os.Args[2] == "C05" {
 			fmt.Println(runShorthand(w, os.Args[3]).out)
 		}
